@@ -133,44 +133,51 @@ struct Rep {                                                      // one failure
 };
 
 // ------------------------------------------------------------------ world: registry + shells + filters
+const std::vector<char>* g_registered = nullptr;                  // registration mask of the live World
+bool is_registered(int i) { return !g_registered || (*g_registered)[i]; }
 struct World {
     TestRegistry reg;
     std::vector<TestFilter> gfs, nfs;
     int n;
-    World(const std::vector<TSpec>& tests, const FList& gf, const FList& nf) : n((int)tests.size()) {
+    std::vector<char> registered;                                 // which of the n shells have been handed to addTest
+    // manual: the shells exist but nothing is registered yet; the program registers them with ADD steps
+    World(const std::vector<TSpec>& tests, const FList& gf, const FList& nf, bool manual = false) : n((int)tests.size()), registered(tests.size(), manual ? 0 : 1) {
         if (n > MAXN) vf::harness_error("too many tests");
         g_nshells = n;
         for (int t = n - 1; t >= 0; t--) {                        // addTest prepends: add in reverse
             if (tests[t].ignored) g_shell_ptr[t] = new (g_shell_mem[t]) IgnoredShell(t, tests[t].group.c_str(), tests[t].name.c_str());
             else g_shell_ptr[t] = new (g_shell_mem[t]) NormalShell(t, tests[t].group.c_str(), tests[t].name.c_str());
-            reg.addTest(g_shell_ptr[t]);
+            if (!manual) reg.addTest(g_shell_ptr[t]);
         }
         link(gfs, gf); link(nfs, nf);
+        g_registered = &registered;
     }
+    int nreg() const { int c = 0; for (char r : registered) c += r; return c; }
     static void link(std::vector<TestFilter>& store, const FList& l) {
         store.reserve(l.size());
         for (auto& f : l) { store.emplace_back(f.text.c_str()); if (f.strict) store.back().strictMatching(); if (f.invert) store.back().invertMatching(); }
         for (size_t i = 0; i + 1 < store.size(); i++) store[i].add(&store[i + 1]);
     }
     void set_filters() { reg.setGroupFilters(gfs.empty() ? nullptr : &gfs[0]); reg.setNameFilters(nfs.empty() ? nullptr : &nfs[0]); }
-    ~World() { for (int t = 0; t < n; t++) g_shell_ptr[t]->~UtestShell(); g_nshells = 0; }
+    ~World() { for (int t = 0; t < n; t++) g_shell_ptr[t]->~UtestShell(); g_nshells = 0; g_registered = nullptr; }
 };
 
 // the linked list must hold every registered test exactly once and end; returns false when it cannot be walked
 bool check_list(World& w, Rep& rep, const char* when, std::vector<int>* order = nullptr) {
-    std::vector<int> seen(w.n, 0); int len = 0; bool foreign = false;
+    std::vector<int> seen(w.n, 0); int len = 0; bool foreign = false; const int nreg = w.nreg();
     UtestShell* t = w.reg.getFirstTest();
     if (order) order->clear();
-    while (t && len <= w.n + 1) { int i = idx_of(t); if (i < 0) { foreign = true; break; } seen[i]++; if (order) order->push_back(i); len++; t = t->getNext(); }
+    while (t && len <= nreg + 1) { int i = idx_of(t); if (i < 0) { foreign = true; break; } seen[i]++; if (order) order->push_back(i); len++; t = t->getNext(); }
     if (foreign) { rep.list_broken = true; rep.fail("list/foreign-element", vf::fmt("%s: the list of tests reaches an object that is not a registered test after %d elements", when, len)); return false; }
-    if (len > w.n) { rep.list_broken = true; rep.fail("list/cycle-or-duplicate", vf::fmt("%s: the list of %d tests does not end after %d elements", when, w.n, len)); return false; }
+    if (len > nreg) { rep.list_broken = true; rep.fail("list/cycle-or-duplicate", vf::fmt("%s: the list of %d tests does not end after %d elements", when, nreg, len)); return false; }
     bool ok = true;
     for (int i = 0; i < w.n; i++) {
-        if (seen[i] == 0) { rep.list_broken = true; rep.fail("list/test-lost", vf::fmt("%s: test #%d is no longer in the list (%d of %d left)", when, i, len, w.n)); ok = false; }
+        if (seen[i] == 0 && w.registered[i]) { rep.list_broken = true; rep.fail("list/test-lost", vf::fmt("%s: test #%d is no longer in the list (%d of %d left)", when, i, len, nreg)); ok = false; }
+        if (seen[i] >= 1 && !w.registered[i]) { rep.list_broken = true; rep.fail("list/foreign-element", vf::fmt("%s: test #%d is in the list but was never registered", when, i)); ok = false; }
         if (seen[i] > 1) { rep.list_broken = true; rep.fail("list/cycle-or-duplicate", vf::fmt("%s: test #%d is in the list %d times", when, i, seen[i])); ok = false; }
     }
     size_t c = w.reg.countTests();
-    if (c != (size_t)w.n) rep.fail("list/countTests-changed", vf::fmt("%s: countTests() = %zu, registered %d", when, c, w.n));
+    if (c != (size_t)nreg) rep.fail("list/countTests-changed", vf::fmt("%s: countTests() = %zu, registered %d", when, c, nreg));
     (void)ok;
     return true;                                                  // finite list: a run over it terminates
 }
@@ -179,7 +186,7 @@ bool check_list(World& w, Rep& rep, const char* when, std::vector<int>* order = 
 struct RepExpect { size_t run = 0, ignored = 0, filtered = 0; };
 RepExpect check_repetition(const std::vector<TSpec>& tests, const FList& gf, const FList& nf, bool run_ignored,
                            size_t from, size_t to, const Counters* c, Rep& rep, const char* via, int repno, std::vector<int>* order_out) {
-    int n = (int)tests.size();
+    int n = (int)tests.size(); int nreg = 0; for (int i = 0; i < n; i++) nreg += is_registered(i) ? 1 : 0;
     std::vector<int> started(n, 0), bodies(n, 0), order;
     int in_group = -1, in_test = -1; bool group_open = false, test_open = false; int brackets = 0;
     std::string at = vf::fmt("%s, repetition %d", via, repno);
@@ -222,6 +229,10 @@ RepExpect check_repetition(const std::vector<TSpec>& tests, const FList& gf, con
 
     RepExpect x;
     for (int i = 0; i < n; i++) {
+        if (!is_registered(i)) {                                  // not (yet) handed to the registry: must not take part at all
+            if (started[i] || bodies[i]) rep.fail("run/unregistered-test-run", at + vf::fmt(": test #%d has not been added to the registry but was started/executed", i));
+            continue;
+        }
         bool sel = ref_selected(tests[i], gf, nf);
         bool exec = sel && (!tests[i].ignored || run_ignored);
         if (!sel) x.filtered++; else if (exec) x.run++; else x.ignored++;
@@ -236,12 +247,12 @@ RepExpect check_repetition(const std::vector<TSpec>& tests, const FList& gf, con
     }
     if (c) {
         std::string cs = vf::fmt(" (counters: %zu tests, %zu ran, %zu ignored, %zu filtered out; reference %d tests, %zu ran, %zu ignored, %zu filtered out)",
-                                 c->tests, c->run, c->ignored, c->filtered, n, x.run, x.ignored, x.filtered);
-        if (c->tests != (size_t)n) rep.fail("count/tests", at + ": test count differs from the number of registered tests" + cs);
+                                 c->tests, c->run, c->ignored, c->filtered, nreg, x.run, x.ignored, x.filtered);
+        if (c->tests != (size_t)nreg) rep.fail("count/tests", at + ": test count differs from the number of registered tests" + cs);
         if (c->run != x.run) rep.fail("count/run", at + ": run count wrong" + cs);
         if (c->ignored != x.ignored) rep.fail("count/ignored", at + ": ignored count wrong" + cs);
         if (c->filtered != x.filtered) rep.fail("count/filtered-out", at + ": filtered-out count wrong" + cs);
-        if (c->run + c->ignored + c->filtered != (size_t)n) rep.fail("count/sum-identity", at + ": run + ignored + filtered out != registered tests" + cs);
+        if (c->run + c->ignored + c->filtered != (size_t)nreg) rep.fail("count/sum-identity", at + ": run + ignored + filtered out != registered tests" + cs);
     } else rep.fail("events/no-counters", at + ": tests-ended was not delivered");
     if (order_out) *order_out = order;
     return x;
@@ -261,10 +272,14 @@ std::vector<std::pair<size_t, size_t>> split_repetitions(Rep& rep, const char* v
 
 // ------------------------------------------------------------------ registry-level programs
 struct Step {
-    enum Kind { RUN, SHUFFLE, REVERSE, SET_RI } kind;
+    enum Kind { RUN, SHUFFLE, REVERSE, SET_RI, ADD, SET_GF, SET_NF } kind;
+    int test = -1;
     std::vector<int> answers; bool big = false; bool real_rand = false; unsigned seed = 1; bool via_array = false;
     static Step run() { Step s; s.kind = RUN; return s; }
     static Step set_ri() { Step s; s.kind = SET_RI; return s; }
+    static Step add(int t) { Step s; s.kind = ADD; s.test = t; return s; }
+    static Step set_gf() { Step s; s.kind = SET_GF; return s; }
+    static Step set_nf() { Step s; s.kind = SET_NF; return s; }
     static Step reverse(bool arr = false) { Step s; s.kind = REVERSE; s.via_array = arr; return s; }
     static Step shuffle(std::vector<int> a, bool big = false, bool arr = false) { Step s; s.kind = SHUFFLE; s.answers = std::move(a); s.big = big; s.via_array = arr; return s; }
     static Step shuffle_real(unsigned seed) { Step s; s.kind = SHUFFLE; s.real_rand = true; s.seed = seed; return s; }
@@ -274,6 +289,9 @@ std::string render_steps(const std::vector<Step>& st) {
     for (auto& s : st) {
         if (s.kind == Step::RUN) o += " run";
         else if (s.kind == Step::SET_RI) o += " set-run-ignored";
+        else if (s.kind == Step::ADD) o += vf::fmt(" add(#%d)", s.test);
+        else if (s.kind == Step::SET_GF) o += " set-group-filters";
+        else if (s.kind == Step::SET_NF) o += " set-name-filters";
         else if (s.kind == Step::REVERSE) o += s.via_array ? " reverse(array)" : " reverse";
         else if (s.real_rand) o += vf::fmt(" shuffle(seed %u, real rand)", s.seed);
         else { o += s.via_array ? " shuffle(array; rand answers" : " shuffle(rand answers"; for (int a : s.answers) o += vf::fmt(" %d", a); o += s.big ? "; as largest int of that residue)" : ")"; }
@@ -283,13 +301,15 @@ std::string render_steps(const std::vector<Step>& st) {
 
 struct RunSummary { std::vector<int> last_order; RepExpect last; int runs = 0; bool reordered = false; };
 
-RunSummary run_registry(const std::vector<TSpec>& tests, const FList& gf, const FList& nf, const std::vector<Step>& steps) {
-    Rep rep; rep.desc = [&]() { return render_tests(tests) + render_filters("g", gf) + render_filters("n", nf) + render_steps(steps); };
+// manual = false: all tests registered and both filter lists set before the first step (the usual order);
+// manual = true: nothing registered, no filter set; the program does it with add / set-group-filters / set-name-filters steps
+RunSummary run_registry(const std::vector<TSpec>& tests, const FList& gf, const FList& nf, const std::vector<Step>& steps, bool manual = false) {
+    Rep rep; rep.desc = [&]() { return render_tests(tests) + render_filters("g", gf) + render_filters("n", nf) + (manual ? " (nothing registered, no filter set before the program)" : "") + render_steps(steps); };
     RunSummary sum;
     g_capture = false;
     {
-        World w(tests, gf, nf); w.set_filters();
-        bool ri = false; int repno = 0;
+        World w(tests, gf, nf, manual); if (!manual) w.set_filters();
+        bool ri = false; int repno = 0; bool gf_on = !manual, nf_on = !manual; const FList nofilter;
         for (const Step& s : steps) {
             if (s.kind == Step::RUN) {
                 repno++;
@@ -299,21 +319,28 @@ RunSummary run_registry(const std::vector<TSpec>& tests, const FList& gf, const 
                 { RecOutput out; TestResult r(out); vf::ctx("runAllTests"); w.reg.runAllTests(r); }
                 auto reps = split_repetitions(rep, "registry");
                 if (reps.size() != 1) { rep.fail("events/repetition-count", vf::fmt("registry: one runAllTests produced %zu tests-started/tests-ended pairs", reps.size())); continue; }
-                sum.last = check_repetition(tests, gf, nf, ri, reps[0].first, reps[0].second, g_counters.size() == 1 ? &g_counters[0] : nullptr, rep, "registry", repno, &sum.last_order);
+                sum.last = check_repetition(tests, gf_on ? gf : nofilter, nf_on ? nf : nofilter, ri, reps[0].first, reps[0].second, g_counters.size() == 1 ? &g_counters[0] : nullptr, rep, "registry", repno, &sum.last_order);
                 sum.runs++;
                 check_list(w, rep, "after the run");
-                vf::count("tests_visited", (long)tests.size());
+                vf::count("tests_visited", (long)w.nreg());
             } else if (s.kind == Step::SET_RI) {
                 vf::ctx("setRunIgnored"); w.reg.setRunIgnored(); ri = true;
+            } else if (s.kind == Step::ADD) {
+                vf::ctx("addTest"); w.reg.addTest(g_shell_ptr[s.test]); w.registered[s.test] = 1;
+                check_list(w, rep, "after addTest");
+            } else if (s.kind == Step::SET_GF) {
+                vf::ctx("setGroupFilters"); w.reg.setGroupFilters(w.gfs.empty() ? nullptr : &w.gfs[0]); gf_on = true;
+            } else if (s.kind == Step::SET_NF) {
+                vf::ctx("setNameFilters"); w.reg.setNameFilters(w.nfs.empty() ? nullptr : &w.nfs[0]); nf_on = true;
             } else {
                 if (s.kind == Step::SHUFFLE) {
                     if (s.real_rand) { PlatformSpecificSrand = g_real_srand; PlatformSpecificRand = g_real_rand; }
-                    else { PlatformSpecificSrand = srand_stub; PlatformSpecificRand = rand_stub; g_answers = s.answers; g_ans_pos = 0; g_rand_n = w.n; g_rand_k = 0; g_rand_big = s.big; }
+                    else { PlatformSpecificSrand = srand_stub; PlatformSpecificRand = rand_stub; g_answers = s.answers; g_ans_pos = 0; g_rand_n = w.nreg(); g_rand_k = 0; g_rand_big = s.big; }
                 }
                 if (s.via_array) {
                     vf::ctx(s.kind == Step::SHUFFLE ? "array.shuffle" : "array.reverse");
                     UtestShellPointerArray arr(w.reg.getFirstTest());
-                    if (arr.get((size_t)w.n) != nullptr || arr.get((size_t)w.n + 7) != nullptr) rep.fail("array/get-beyond-count", "get(index >= count) is not null");
+                    if (arr.get((size_t)w.nreg()) != nullptr || arr.get((size_t)w.nreg() + 7) != nullptr) rep.fail("array/get-beyond-count", "get(index >= count) is not null");
                     if (s.kind == Step::SHUFFLE) arr.shuffle(s.seed); else arr.reverse();
                     w.reg.tests_ = arr.getFirstTest();
                 } else if (s.kind == Step::SHUFFLE) { vf::ctx("shuffleTests"); w.reg.shuffleTests(s.seed); }
@@ -443,7 +470,7 @@ int main(int argc, char** argv) {
     vf::info("rule", "registries of scripted tests (group, name, ignored) x filter lists (substring/strict, plain/inverted, several per side) x run-ignored x repetitions x reorderings "
                      "(reverse; shuffle with every vector of rand() answers) run through the real registry or the real command line runner; every repetition is compared with the "
                      "property: exactly-once, counters, selection rule, permutation, balanced group notifications. Non-trivial = filter sections: a filter is given and (single test) "
-                     "or some test is selected and some filtered out (several tests); order sections: the observed order differs from the registration order");
+                     "or some test is selected and some filtered out (several tests); order sections: the observed order differs from the registration order; config: some option call is made before the last addTest");
 
     // ---------------------------------------------------------------- sel1: one test, full filter-list pairs
     {
@@ -510,6 +537,40 @@ int main(int argc, char** argv) {
             if (s.last.filtered && s.last.run + s.last.ignored) vf::count("nontrivial");
         });
         vf::require_outcomes("rsel", 8);
+    }
+
+    // ---------------------------------------------------------------- config: the ORDER of the configuration calls
+    {
+        // option calls: 0 setRunIgnored, 1 setGroupFilters, 2 setNameFilters, 3 reverseTests, 4 an interim runAllTests, 5 a second setRunIgnored.
+        // Each enumerated call is absent or placed before the k-th addTest (k = 0..N-1) or after the last one (k = N); calls at the
+        // same place run in the order listed (so "run, then setRunIgnored" and "setRunIgnored, then run" both occur). Two runs at the end.
+        const char* OPN[6] = {"setRunIgnored", "setGroupFilters", "setNameFilters", "reverseTests", "interim run", "second setRunIgnored"};
+        Blocks bl;  // extra = mask of enumerated calls | gfv variants << 8
+        auto add = [&](int n, int mask, int gfv) { long sz = gfv; for (int i = 0; i < n; i++) sz *= 4; for (int o = 0; o < 6; o++) if (mask & (1 << o)) sz *= n + 2; bl.add(sz, n, mask | (gfv << 8)); };
+        if (!T) { add(2, 0x3f, 2); add(3, 0x1f, 1); add(4, 0x1b, 1); }
+        else { add(2, 0x3f, 2); add(3, 0x3f, 2); add(4, 0x1f, 1); }
+        vf::info("config.bound", T ? "nothing registered at the start; tests are added one by one and the option calls {setRunIgnored, setGroupFilters, setNameFilters, reverseTests, an interim run, a second setRunIgnored} are each absent or placed before any addTest or after the last: 2 and 3 tests (all six calls, group filter -sg A / -xg A), 4 tests (first five calls); tests over 4 kinds (group {A,B} x ignored; names x/xy alternate); name filter -sn x; two runs at the end; every run (interim and final) is compared with the reference for the tests registered and the options in force at that moment"
+                                   : "nothing registered at the start; tests are added one by one and the option calls {setRunIgnored, setGroupFilters, setNameFilters, reverseTests, an interim run, a second setRunIgnored} are each absent or placed before any addTest or after the last: 2 tests (all six calls, group filter -sg A / -xg A), 3 tests (first five calls), 4 tests (setRunIgnored, setGroupFilters, reverseTests, interim run); tests over 4 kinds (group {A,B} x ignored; names x/xy alternate); name filter -sn x; two runs at the end; every run (interim and final) is compared with the reference for the tests registered and the options in force at that moment");
+        vf::section_index("config", bl.total, [&](long idx) {
+            long loc; const Block& b = bl.find(idx, loc); vf::Radix r(loc);
+            int mask = b.extra & 0xff, gfvn = b.extra >> 8, n = b.n;
+            int pos[6]; bool early = false;
+            for (int o = 0; o < 6; o++) { pos[o] = (mask & (1 << o)) ? (int)r.take(n + 2) - 1 : -1; if (pos[o] >= 0 && pos[o] < n) early = true; }
+            long gfv = r.take(gfvn);
+            std::vector<TSpec> tests; for (int i = 0; i < n; i++) { long k = r.take(4); tests.push_back(TSpec{(k & 1) ? "B" : "A", i % 2 ? "xy" : "x", (k & 2) != 0}); }
+            FList gf = {gfv ? FSpec{"A", false, true} : FSpec{"A", true, false}}, nf = {FSpec{"x", true, false}};
+            std::vector<Step> st;
+            for (int k = 0; k <= n; k++) {
+                for (int o = 0; o < 6; o++) if (pos[o] == k) st.push_back(o == 0 || o == 5 ? Step::set_ri() : o == 1 ? Step::set_gf() : o == 2 ? Step::set_nf() : o == 3 ? Step::reverse() : Step::run());
+                if (k < n) st.push_back(Step::add(k));
+            }
+            st.push_back(Step::run()); st.push_back(Step::run());
+            (void)OPN;
+            RunSummary s = run_registry(tests, gf, nf, st, true);
+            vf::outcome(vf::fmt("run=%zu ign=%zu flt=%zu", std::min<size_t>(s.last.run, 2), std::min<size_t>(s.last.ignored, 2), std::min<size_t>(s.last.filtered, 2)));
+            if (early) vf::count("nontrivial");
+        });
+        vf::require_outcomes("config", 12);
     }
 
     // tests of the order sections: group by bit mask, names alternate, every third test is an ignored one
